@@ -31,15 +31,23 @@ class _Settings:
         self.fft_settings = fft
 
 
+import copy
+# what the worker hands to the library for the settings object of its chunk - established by harness/C19.py (run_dataflow) on the
+# real cli._process_hvsr: the chunk's own object ("0") or a private copy per file ("1")
+WORKER_COPIES = os.environ.get("XH_WORKER_COPIES", "0") == "1"
+
+
 def chunk_fft_length(n1: int, n2: int) -> bool:
     """
-    a file of n2 samples handled after a file of n1 samples with the same settings object gets the FFT length it gets alone
+    a file of n2 samples handled after a file of n1 samples in the same chunk gets the FFT length it gets alone
     pre: 1 <= n1 <= 300000 and 1 <= n2 <= 300000
     post: _
     """
     shared = _Settings(None)
-    P.prepare_fft_settings([_Rec(n1)], shared)
-    P.prepare_fft_settings([_Rec(n2)], shared)
+    P.prepare_fft_settings([_Rec(n1)], copy.deepcopy(shared) if WORKER_COPIES else shared)
+    second = copy.deepcopy(shared) if WORKER_COPIES else shared
+    P.prepare_fft_settings([_Rec(n2)], second)
+    shared = second
     alone = _Settings(None)
     P.prepare_fft_settings([_Rec(n2)], alone)
     return shared.fft_settings["n"] == alone.fft_settings["n"]
